@@ -109,7 +109,7 @@ func genOp(t *rapid.T, ntypes int, g *genState) Op {
 
 // Gen draws a case.
 func Gen(t *rapid.T) *Case {
-	c := &Case{Types: genTypes(t), SharedOpts: rapid.IntRange(0, 3).Draw(t, "sharedOpts") == 0}
+	c := &Case{Types: genTypes(t), SharedOpts: rapid.IntRange(0, 3).Draw(t, "sharedOpts") == 0, RevOpts: rapid.Bool().Draw(t, "revOpts")}
 	if rapid.Bool().Draw(t, "hasAmbient") {
 		c.Ambient = rapid.IntRange(0, busmodel.AmbAll).Draw(t, "ambient")
 	}
